@@ -1,0 +1,5 @@
+//go:build !verif
+
+package snow3g
+
+func verifGate(point string) {}
